@@ -152,3 +152,31 @@ def base_local(fn, op, depth=0):
         else:
             return loc
     return loc
+
+
+def written_field_names(fn):
+    """names of all fields (at any depth) assigned somewhere in fn"""
+    out = set()
+    for blk in fn.blocks:
+        for s in blk['s']:
+            for e in s['lhs'][1:]:
+                if isinstance(e, list) and e[0] == 'f':
+                    out.add(e[2])
+    return out
+
+
+def prune_contradictions(fn, dnf):
+    """drop clauses that contain both X and !X for a plain field read X (no call inside) whose last field is
+    never assigned in fn: such a path is infeasible"""
+    wr = written_field_names(fn)
+    out = []
+    for c in dnf:
+        bad = False
+        for a in c:
+            if a[0] == 'bool' and '(' not in a[1] and a[1].split('.')[-1] not in wr:
+                if ('bool', a[1], not a[2]) in c:
+                    bad = True
+                    break
+        if not bad:
+            out.append(c)
+    return out
